@@ -410,6 +410,14 @@ def variants(repo):
     J = "optimism/material/J2Plastic.py"
     S = "optimism/ScalarRootFind.py"
     return [
+        Variant("stress output differentiates the material energy density w.r.t. the internal state", Me,
+                sub_in_func("create_mechanics_functions", "    output_lagrangian = strain_energy_density_to_lagrangian_density(materialModel.compute_energy_density)\n    output_constitutive = value_and_grad(output_lagrangian, 1)\n",
+                            "    edas = value_and_grad(materialModel.compute_energy_density, 1)\n    def output_constitutive(U, gradU, Q, X, dt):\n        return edas(gradU, Q, dt)\n"),
+                "W3/T5-derivative-slots"),
+        Variant("stress output differentiates the material energy density directly, w.r.t. the displacement gradient", Me,
+                sub_in_func("create_mechanics_functions", "    output_lagrangian = strain_energy_density_to_lagrangian_density(materialModel.compute_energy_density)\n    output_constitutive = value_and_grad(output_lagrangian, 1)\n",
+                            "    edas = value_and_grad(materialModel.compute_energy_density, 0)\n    def output_constitutive(U, gradU, Q, X, dt):\n        return edas(gradU, Q, dt)\n"),
+                None),
         Variant("primal recomputed in sqrt rule", T, sub_in_func("_sqrt_symm_jvp", "    primal_out = sqrt_symm(*primals)", "    primal_out = symmetric_matrix_function(primals[0], Math.safe_sqrt)"), "W1/T5-custom-jvp-wiring"),
         Variant("pow tangent with other exponent", T, sub_in_func("_pow_symm_jvp", "_symmetric_matrix_function_jvp_helper(lambda x: np.power(x, m),", "_symmetric_matrix_function_jvp_helper(lambda x: np.power(x, m - 1),"), "W1/T5-custom-jvp-wiring"),
         Variant("safe_sqrt nonzero tangent at 0", Mth, sub("                       lambda x: 0.,", "                       lambda x: 1.,"), "W1/T5-safe-sqrt-rule"),
